@@ -26,19 +26,29 @@ const (
 	c13ErrWrapped
 	c13ErrWithOuts
 	c13ErrOther
+	c13ErrTransient
 	c13Results
 )
 
-var c13ResultNames = [...]string{"success", "success+outputs", "sentinel error", "wrapped sentinel error", "sentinel error + outputs", "other error"}
+// transientErr is a wrapper type with a Cause() method, as applications use to classify errors.
+type transientErr struct{ cause error }
+
+func (e transientErr) Error() string { return "transient: " + e.cause.Error() }
+func (e transientErr) Cause() error  { return e.cause }
+func (e transientErr) Unwrap() error { return e.cause }
+
+var c13ResultNames = [...]string{"success", "success+outputs", "sentinel error", "wrapped sentinel error", "sentinel error + outputs", "other error", "transient wrapper around sentinel"}
 
 const (
 	c13FilterAll = iota
 	c13FilterSentinel
 	c13FilterNone
+	c13FilterOuterPrefix  // decides on the outer error's text
+	c13FilterNotTransient // decides on the outer error's type
 	c13Filters
 )
 
-var c13FilterNames = [...]string{"PoisonQueue (all errors)", "filter: errors.Is sentinel", "filter: nothing"}
+var c13FilterNames = [...]string{"PoisonQueue (all errors)", "filter: errors.Is sentinel", "filter: nothing", "filter: outer message starts with 'while handling'", "filter: everything except the transient wrapper type"}
 
 func c13Result(kind int, m *message.Message) ([]*message.Message, error) {
 	outs := []*message.Message{message.NewMessage(m.UUID+">out", []byte("o"))}
@@ -53,6 +63,8 @@ func c13Result(kind int, m *message.Message) ([]*message.Message, error) {
 		return nil, errors.Wrap(errC13Sentinel, "while handling")
 	case c13ErrWithOuts:
 		return outs, errC13Sentinel
+	case c13ErrTransient:
+		return nil, transientErr{errC13Sentinel}
 	default:
 		return nil, errC13Other
 	}
@@ -64,6 +76,11 @@ func c13Accepts(filter int, err error) bool {
 		return true
 	case c13FilterSentinel:
 		return stderrors.Is(err, errC13Sentinel)
+	case c13FilterOuterPrefix:
+		return strings.HasPrefix(err.Error(), "while handling")
+	case c13FilterNotTransient:
+		_, isTransient := err.(transientErr)
+		return !isTransient
 	}
 	return false
 }
